@@ -1175,6 +1175,10 @@ static int btls_receive(struct xcm_socket *__restrict s, void *__restrict buf,
     if (capacity > INT_MAX)
 	capacity = INT_MAX;
 
+    /* SSL_read() would return 0, which is not the peer closing */
+    if (capacity == 0)
+	return 0;
+
     UT_SAVE_ERRNO;
     int rc = SSL_read(bts->conn.ssl, buf, capacity);
     UT_RESTORE_ERRNO(read_errno);
